@@ -592,6 +592,8 @@ func checkC01(c *Ctx) {
 	checkC06Clamps(c)
 	checkC01Nonneg(c)
 	checkNilBelief(c, "C01.nil-belief")
+	checkNilFuncCall(c)
+	checkMacroBudget(c)
 }
 
 // ---------------- recursion ----------------
@@ -981,9 +983,7 @@ func checkC01Panics(c *Ctx, fns []*ssa.Function) {
 // ---------------- nil calls ----------------
 
 // func-typed fields / map elements whose nil-ness is excluded by construction (reviewed)
-var nilCallExempt = map[string]string{
-	"(*keymap.Engine).RunPending|result of (*keymap.Engine).resolve (may be nil)": "the popped bind was pushed by Pending() from Engine.active while that very command was running (C17.pending-protocol checks this is the only push), i.e. a bind the dispatcher had resolved to a registered, non-macro command; the empty-action case returns just above. Not reachable with a nil result from keyboard input",
-}
+var nilCallExempt = map[string]string{}
 
 func checkC01NilCalls(c *Ctx, fns []*ssa.Function) {
 	p, r := c.P, c.R
